@@ -18,9 +18,11 @@ Schedule (all CrossHair-symbolic): num_slots (1..2), lifetime (1..LMAX); per ste
                 callback latency is taken as zero clock ticks)
   action 6+i    cancel lookup task i
   drain bit     run the loop until quiescent before the next action (the last step always drains)
-`mode` partitions the schedules by what cancel() hits, so that distinct mechanisms are separate obligations:
+`mode` selects sub-families of schedules by what cancel() hits, so that distinct mechanisms get their own obligations:
 LOADER = the earliest lookup task blocked on a pending load of its key (in the repository's code that is the task
-whose lookup created the load), FOLLOWER = a later task blocked on the same key.  mode 0: no cancel hits a FOLLOWER; mode 1: some cancel hits a FOLLOWER, none a LOADER; mode 2: both.
+whose lookup created the load), FOLLOWER = a later task blocked on the same key.  mode 0: every schedule (the claim);
+mode 1: >= 1 cancel and every cancel hits a LOADER; mode 2: >= 1 cancel and every cancel hits a FOLLOWER (both are
+sub-families of mode 0, run at small k so that each mechanism is reported under its own name).  mode 0: no cancel hits a FOLLOWER; mode 1: some cancel hits a FOLLOWER, none a LOADER; mode 2: both.
 Oracle (what C26 states):
   bounded   the cache never holds more than num_slots entries (len of its entry dict, at every step)
   fresh     a returned value finished loading less than `lifetime` ago, and is a value for the key asked
@@ -235,13 +237,15 @@ async def scenario(nt, slots, lifetime, acts, keys, dts, drains, mode, trace=Non
                     raise sched.Prune()
                 kd = kind(i)
                 if kd == 'follower':
-                    if mode == 0:
+                    if mode == 1:
                         raise sched.Prune()
                     stats['follower_cancels'] += 1
                 elif kd == 'loader':
-                    if mode == 1:
+                    if mode == 2:
                         raise sched.Prune()
                     stats['loader_cancels'] += 1
+                elif mode > 0:
+                    raise sched.Prune()
                 cancelled[i] = True
                 tasks[i].cancel()
                 what = f'cancel{i}:{kd}'
@@ -250,9 +254,9 @@ async def scenario(nt, slots, lifetime, acts, keys, dts, drains, mode, trace=Non
             if trace is not None:
                 trace.append((what, bool(drains[s]), int(clock[0]), list(outcome), sorted(int(x) for x in cache._cache)))
             check()
-        if mode == 1 and not (stats['follower_cancels'] > 0 and stats['loader_cancels'] == 0):
+        if mode == 1 and stats['loader_cancels'] == 0:
             raise sched.Prune()
-        if mode == 2 and not (stats['follower_cancels'] > 0 and stats['loader_cancels'] > 0):
+        if mode == 2 and stats['follower_cancels'] == 0:
             raise sched.Prune()
         stats['complete'] = True
         await sched.settle()
